@@ -31,11 +31,12 @@ BOUNDSCHECK_TIERS = ("thorough",)
 def REQUIRED(tier):
     return [f"op:{o}" for o in OPS] + ["regime:subrange_before_eof", "regime:>=3blocks", "regime:gulp<2*maxdelay", "regime:gulp>nsamps",
                                        "regime:last_block_shorter_than_maxdelay", "regime:maxdelay>nsamps/2", "tiling_checks", "gulp_independence_checks",
-                                       "spy:extract_tim", "spy:dedisperse", "regime:reader_with_history"]
+                                       "spy:extract_tim", "spy:dedisperse", "regime:reader_with_history", "regime:nchans>32_not_multiple_of_32"]
 
 
 def _cfg(nbits, N=97, nch=8, split=None, tsamp=1e-3):
-    return {"N": N, "nchans": sigfile.legal_nchans(nbits, nch), "nbits": nbits, "split": split or [N], "fch1": 1500.0, "foff": -20.0, "tsamp": tsamp}
+    nchl = sigfile.legal_nchans(nbits, nch)
+    return {"N": N, "nchans": nchl, "nbits": nbits, "split": split or [N], "fch1": 1500.0, "foff": -20.0 if nchl <= 16 else -float(1000 // nchl), "tsamp": tsamp}
 
 
 def cases(tier, seed):
@@ -52,7 +53,8 @@ def cases(tier, seed):
         nfiles = int(rng.integers(1, 4))
         cuts = sorted(rng.choice(np.arange(1, N), size=nfiles - 1, replace=False).tolist()) if nfiles > 1 else []
         split = [b - a for a, b in zip([0] + cuts, cuts + [N])]
-        cfg = _cfg(nbits, N, int(rng.choice([1, 4, 8, 16])), split)
+        # channel counts beyond the usual powers of two: 33..200 exercise kernels that tile or strip-mine the channel axis
+        cfg = _cfg(nbits, N, int(rng.choice([1, 4, 8, 16])) if k % 3 else int(rng.choice([33, 40, 72, 100, 200])), split)
         runs = []
         for op in OPS:
             start = int(rng.choice([0, int(rng.integers(0, N - 5))]))
@@ -145,6 +147,8 @@ def run_case(case, ctx):
                 continue
         ctx.evaluated()
         ctx.count(f"op:{op}")
+        if cfg["nchans"] > 32 and cfg["nchans"] % 32:
+            ctx.count("regime:nchans>32_not_multiple_of_32")
         ge = max(gulp, 2 * maxdelay) if op == "dedisperse" else gulp
         nblocks = 1 if ge >= nsamps else int(np.ceil((nsamps - maxdelay) / (ge - maxdelay)))
         regime = []
